@@ -9,6 +9,11 @@ def _poly(n, spec, inputs):
     M = numpy.array([[inputs["b"][i]] + A[i] for i in range(len(A))], dtype=numpy.int64)
     first = n.puan.variable("0") if spec.get("first") == "plain01" else n.puan.variable(0, bounds=(1, 1))
     vs = [first] + [n.puan.variable("v%d" % j, bounds=(inputs["lo"][j], inputs["hi"][j])) for j in range(len(A[0]))]
+    dt = spec.get("dtype")
+    if dt == "astype-int16":
+        return n.pnd.ge_polyhedron(M, variables=vs).astype(numpy.int16)
+    if dt:
+        return n.pnd.ge_polyhedron(M, variables=vs, dtype=getattr(numpy, dt))
     return n.pnd.ge_polyhedron(M, variables=vs)
 
 
